@@ -303,6 +303,7 @@ func c14Run(r *rt.Rec, rng *rand.Rand, n int) {
 				oq.OrderBy = append(oq.OrderBy, bq.Order{Binding: b, Dir: []string{"", "DESC"}[rng.Intn(2)]})
 			}
 			var first []string
+			spelling, ambiguous := map[string]string{}, false
 			type run struct {
 				name  string
 				st    storage.Store
@@ -338,6 +339,22 @@ func c14Run(r *rt.Rec, rng *rand.Rand, n int) {
 				var seq []string
 				for _, row := range t.Rows() {
 					seq = append(seq, cv.Row(row, outs))
+					// one value under two printed forms (the same instant in two
+					// zones) makes "ordered by printed form" depend on which spelling
+					// a plan happens to show: no sequence is required then
+					for _, b := range outs {
+						if c := row[b]; c != nil {
+							k := b + "\x00" + cv.Cell(c)
+							if p, ok := spelling[k]; ok && p != c.String() {
+								ambiguous = true
+							}
+							spelling[k] = c.String()
+						}
+					}
+				}
+				if ambiguous {
+					r.Count("total_order_skipped_ambiguous_spelling", 1)
+					break
 				}
 				if k == 0 {
 					first = seq
